@@ -136,16 +136,19 @@ impl Method for PhoneticMethod {
     fn candidate_committed(&mut self, index: usize, config: &Config) {
         // Check if user has selected a different suggestion
         if self.prev_selection != index && config.get_phonetic_suggestion() {
-            let suggestion =
-                SplittedString::split(self.suggestion.suggestions[index].to_string(), true)
-                    .word()
-                    .to_string();
-            self.selections.insert(
-                SplittedString::split(&self.buffer, false)
-                    .word()
-                    .to_string(),
-                suggestion,
-            );
+            // Remove the meta characters the candidate was wrapped with: the converted ones
+            // or, for the typed English text, the ones as they were typed. A candidate
+            // which is not wrapped (an emoji of an emoticon) is stored as it is.
+            let candidate = self.suggestion.suggestions[index].to_string();
+            let typed = SplittedString::split(&self.buffer, false);
+            let shown = self.suggestion.split_term(&self.buffer, config);
+            let unwrap = |p: &str, t: &str| candidate.strip_prefix(p).and_then(|c| c.strip_suffix(t));
+            let suggestion = unwrap(shown.preceding(), shown.trailing())
+                .or_else(|| unwrap(typed.preceding(), typed.trailing()))
+                .unwrap_or(candidate)
+                .to_string();
+            self.selections
+                .insert(typed.word().to_string(), suggestion);
             write(
                 config.get_user_phonetic_selection_data(),
                 serde_json::to_string(&self.selections).unwrap(),
